@@ -1,0 +1,18 @@
+//go:build verif
+
+package larking
+
+// Contracts for the deductive checks under /verif (comment-only file, see
+// /verif/DESIGN.md). Nothing here is compiled into the library.
+
+//@ spec HTTPOf(c) = tab(c, 200, 408, 500, 400, 504, 404, 409, 403, 429, 400, 409, 400, 501, 500, 503, 500, 401, 500)
+//@ spec WSOf(c) = tab(c, 1000, 1001, 1011, 1003, 1001, 1011, 1001, 1011, 1011, 1011, 1011, 1011, 1003, 1011, 1011, 1011, 1008, 1011)
+
+//@ func HTTPStatusCode serves C05 C09
+//@   ensures [table] c <= 16 ==> result == HTTPOf(c)
+//@   ensures [range] c > 16 ==> result == 500
+//@   oracle (c <= 16 && result == [...]int{200, 408, 500, 400, 504, 404, 409, 403, 429, 400, 409, 400, 501, 500, 503, 500, 401}[c]) || (c > 16 && result == 500)
+
+//@ func WSStatusCode serves C05 C09
+//@   ensures [table] c <= 16 ==> result == WSOf(c)
+//@   ensures [range] c > 16 ==> result == 1011
